@@ -162,3 +162,186 @@ def frame_from_record(rec):
         if c != 'Y' and not df[c].isna().any() and (df[c] == df[c].astype(int)).all():
             df[c] = df[c].astype(int)
     return df
+
+
+# ---------------------------------------------------------------------------------------------------------------
+# Families shared by the data-frame checks (added in round 4): hostile column names, nullable / odd column dtypes,
+# level codings.  All additive; drawn from the caller's rng; everything returned is JSON-serialisable.
+# ---------------------------------------------------------------------------------------------------------------
+
+#: names a library (or pandas) plausibly uses for a scratch column, a local, an attribute or a result label
+SCRATCH_NAMES = [
+    'complete', 'missing', 'observed', 'flag', 'keep', 'mask', 'n', 'N', 'count', 'counts', 'total', 'index',
+    'level_0', 'level_1', 'idx', 'id', 'tmp', 'temp', '_merge', 'weight', 'weights', 'w', 'exposure', 'outcome',
+    'time', 'treatment', 'event', 'events', 'y', 'x', 'a', 'b', 'c', 'd', 'e', 'i', 'df', 'data', 'value', 'values',
+    'variable', 'size', 'shape', 'T', 'loc', 'iloc', 'columns', 'dtype', 'sum', 'mean', 'min', 'max', 'any', 'all',
+    'name', 'key', 'keys', 'items', 'Intercept', 'const', '__freq__', '__group__', 'nan', 'None', 'True', '0', '1',
+    '0.0', '', ' ', 'exp', 'dis', 'A', 'Y', 'E', 'D', 'E=1', 'D=1', 'ref', 'reference', 'level', 'levels', 'group']
+
+
+def library_names(relpath, cls=None, repo=None):
+    """every name the library's own source uses in `relpath` (optionally only inside class `cls`): variables, arguments,
+    keyword names (`df.assign(flag=...)`), attribute names, short string constants (`df['__tmp__']`, result labels).
+    Read from the tree under test, so a scratch name introduced by a change is in the pool."""
+    import ast
+    import os
+    import common
+    path = os.path.join(repo or common.REPO, relpath)
+    try:
+        tree = ast.parse(open(path).read())
+    except (OSError, SyntaxError):
+        return []
+    node = tree
+    if cls is not None:
+        node = next((c for c in tree.body if isinstance(c, ast.ClassDef) and c.name == cls), tree)
+    out = set()
+    for n in ast.walk(node):
+        if isinstance(n, ast.Name):
+            out.add(n.id)
+        elif isinstance(n, ast.arg):
+            out.add(n.arg)
+        elif isinstance(n, ast.keyword) and n.arg:
+            out.add(n.arg)
+        elif isinstance(n, ast.Attribute):
+            out.add(n.attr)
+        elif isinstance(n, ast.Constant) and isinstance(n.value, str) and len(n.value) <= 24 and '\n' not in n.value:
+            out.add(n.value)
+    return sorted(out)
+
+
+def name_pool(relpath=None, cls=None):
+    """static scratch names + the names of the library source under test, de-duplicated, in a fixed order"""
+    seen, pool = set(), []
+    for nm in SCRATCH_NAMES + (library_names(relpath, cls) if relpath else []):
+        if nm not in seen:
+            seen.add(nm)
+            pool.append(nm)
+    return pool
+
+
+def related_names(name):
+    """names that contain `name`, are contained in it, or differ from it only by case / padding"""
+    out = [name + '0', name + '_', '_' + name, name + ' ', name + name, name.upper(), name.lower(), name.capitalize(),
+           name + '.1', name + '_x', name + '_y', 'x' + name + 'x']
+    if len(name) > 1:
+        out += [name[:-1], name[1:], name[:1]]
+    return [n for n in dict.fromkeys(out) if n != name]
+
+
+def draw_names(rng, pool, default=('exp', 'dis'), p_hostile=0.5, max_extras=3):
+    """column names for an (exposure, outcome) frame: {'exp', 'dis', 'extras': [[name, content seed], ...], 'order'}.
+    With probability p_hostile the two names come from the pool / are substrings of one another; the extra
+    (unused) columns are named from the pool or after the two used names (prefix, suffix, case variants)."""
+    ex, di = default
+    u = rng.uniform()
+    if u < p_hostile:
+        ex = pool[int(rng.integers(0, len(pool)))]
+        di = pool[int(rng.integers(0, len(pool)))]
+        v = rng.uniform()
+        if v < 0.2:                       # outcome name contains / is contained in the exposure name
+            rel = related_names(ex)
+            di = rel[int(rng.integers(0, len(rel)))]
+        elif v < 0.3:
+            ex = default[0]
+        elif v < 0.4:
+            di = default[1]
+    if ex == di:
+        di = di + '_'
+    extras = []
+    for _ in range(int(rng.integers(0, max_extras + 1))):
+        cand = related_names(ex) + related_names(di) if rng.uniform() < 0.5 else pool
+        nm = cand[int(rng.integers(0, len(cand)))]
+        if nm not in (ex, di) and nm not in [x[0] for x in extras]:
+            extras.append([nm, int(rng.integers(0, 2 ** 31))])
+    return {'exp': ex, 'dis': di, 'extras': extras, 'order': int(rng.integers(0, 2 ** 31))}
+
+
+def extra_column(seed, e, y):
+    """content of an unused column, a function of its seed only (replayable): a variable of its own with values
+    missing on rows where the analysed columns are observed, a noisy copy of the exposure / outcome, text, all-NaN"""
+    r = np.random.default_rng(seed)
+    n = len(e)
+    kind = int(r.integers(0, 7))
+    if kind == 0:
+        return [float('nan') if r.uniform() < 0.4 else float(r.integers(0, 2)) for _ in range(n)]
+    if kind == 1:                         # the exposure, shuffled, with its own holes
+        p = r.permutation(n)
+        return [float('nan') if (e[j] is None or r.uniform() < 0.2) else float(e[j]) for j in p]
+    if kind == 2:                         # the complement of the outcome, with its own holes
+        return [float('nan') if (v is None or r.uniform() < 0.2) else 1.0 - float(v) for v in y]
+    if kind == 3:
+        return ['s%d' % int(r.integers(0, 3)) for _ in range(n)]
+    if kind == 4:
+        return [float('nan')] * n
+    if kind == 5:
+        return [bool(r.integers(0, 2)) for _ in range(n)]
+    return [float(r.normal()) for _ in range(n)]
+
+
+#: column storage kinds for a numeric-coded column pair; the nullable ones hold pd.NA and so admit incomplete rows
+NUMPY_DTYPE_KINDS = ['float', 'int64', 'int8', 'bool_outcome', 'object']
+NULLABLE_DTYPE_KINDS = ['Int64', 'Int8', 'boolean_outcome', 'Float64', 'Int64_x_float', 'float_x_Int64', 'category']
+
+
+def _is_int(v):
+    return float(v).is_integer()
+
+
+def typed_columns(e, y, kind):
+    """(exposure column, outcome column, kind actually used).  e: level codes (int or float) or None; y: 0/1 or None.
+    A kind that cannot hold the data (missing values in a numpy integer column, fractional codes in an integer column,
+    codes outside int8) falls back to the nearest kind that can: float for the numpy kinds, Float64 for the nullable."""
+    complete = all(v is not None for v in e) and all(v is not None for v in y)
+    ints = all(_is_int(v) for v in e if v is not None)
+    small = ints and all(-128 <= v <= 127 for v in e if v is not None)
+
+    def fl(xs):
+        return [float('nan') if v is None else float(v) for v in xs]
+
+    def na(xs, cast):
+        return [pd.NA if v is None else cast(v) for v in xs]
+
+    if kind in ('int64', 'int8', 'bool_outcome') and not (complete and ints and (kind != 'int8' or small)):
+        kind = 'float'
+    if kind in ('Int64', 'Int8', 'boolean_outcome', 'Int64_x_float') and not (ints and (kind != 'Int8' or small)):
+        kind = 'Float64'
+    if kind == 'float':
+        return pd.Series(fl(e)), pd.Series(fl(y)), kind
+    if kind == 'int64':
+        return pd.Series([int(v) for v in e], dtype=np.int64), pd.Series([int(v) for v in y], dtype=np.int64), kind
+    if kind == 'int8':
+        return pd.Series(np.array(e, dtype=np.int8)), pd.Series(np.array(y, dtype=np.uint8)), kind
+    if kind == 'bool_outcome':
+        return pd.Series(np.array(e, dtype=np.int32)), pd.Series(np.array(y, dtype=np.bool_)), kind
+    if kind == 'object':
+        # ints stay ints; missing is None on even rows and NaN on odd rows (both are "null" for pandas)
+        def ob(xs):
+            return pd.Series([(None if k % 2 == 0 else float('nan')) if v is None else (int(v) if _is_int(v) else float(v))
+                              for k, v in enumerate(xs)], dtype=object)
+        return ob(e), ob(y), kind
+    if kind == 'Int64':
+        return pd.Series(pd.array(na(e, int), dtype='Int64')), pd.Series(pd.array(na(y, int), dtype='Int64')), kind
+    if kind == 'Int8':
+        return pd.Series(pd.array(na(e, int), dtype='Int8')), pd.Series(pd.array(na(y, int), dtype='UInt8')), kind
+    if kind == 'boolean_outcome':
+        return (pd.Series(pd.array(na(e, int), dtype='Int32')),
+                pd.Series(pd.array(na(y, lambda v: bool(v)), dtype='boolean')), kind)
+    if kind == 'Float64':
+        return (pd.Series(pd.array(na(e, float), dtype='Float64')),
+                pd.Series(pd.array(na(y, float), dtype='Float64')), kind)
+    if kind == 'Int64_x_float':
+        return pd.Series(pd.array(na(e, int), dtype='Int64')), pd.Series(fl(y)), kind
+    if kind == 'float_x_Int64':
+        return pd.Series(fl(e)), pd.Series(pd.array(na(y, int), dtype='Int64')), kind
+    if kind == 'category':
+        return pd.Series(fl(e)).astype('category'), pd.Series(fl(y)), kind
+    raise KeyError(kind)
+
+
+#: (compared level, reference) codings of a binary exposure: 0/1 and its mirror, reference coded larger, negative
+#: codes on either side (effect coding -1/+1), both negative, fractional codes, far-apart and large codes
+BINARY_CODINGS = [(1, 0), (0, 1), (2, 5), (5, 2), (1, -1), (-1, 1), (0, -1), (-1, 0), (-3, -8), (-8, -3),
+                  (0.5, 0), (0, 0.5), (1.5, -2.5), (-0.25, 0.25), (1, 2), (2, 1), (100, 3), (7, 120),
+                  (1000000, 0), (-1, 1000000)]
+#: level codes for exposures with more than two levels
+MULTI_LEVEL_POOL = [0, 1, 2, 3, 5, 8, 9, 16, 17, 33, -1, -2, -7, 0.5, 1.5, -0.25, 2.5, 100000]
